@@ -239,6 +239,11 @@ CLAIMED = {
 }
 # properties part of whose source is translated to Gallina on every run (harness/pytrans.py): (what, theorems about the generated defs)
 TRANSLATED = {
+ 'C03': ('the all-norms-positive path of _cosine (branch condition included) and the bodies of compare_cosine / compare_correlation '
+         '(rdm/compare.py)',
+         'the generated branch condition is "every norm is positive"; on that path entry (i,k) of the generated compare_cosine / '
+         'compare_correlation is the cosine / Pearson correlation of RDM i of the first stack and RDM k of the second, for every size of '
+         'both stacks; values lie in [-1,1]; comparing in the other order transposes the result'),
  'C17': ('the value computations of sqrt_transform, positive_transform and geotopological_transform (masked assignments included) and '
          'the loop body of minmax_transform (rdm/transform.py)',
          'the generated computations are entry-wise sqrt(max(x,0)), max(x,0), the clipped-linear map between the two quantiles judged on the '
